@@ -152,6 +152,41 @@ func (c GenCfg) coords(r *prng.Rand, l int, ring bool) []Coord {
 	return out
 }
 
+// Small is small, exported.
+func (c GenCfg) Small() GenCfg { return c.small() }
+
+// ManyParts returns a geometry of type t (MultiPoint, Polygon,
+// MultiLineString or MultiPolygon) with exactly k small parts.
+func (c GenCfg) ManyParts(r *prng.Rand, t string, l int, k int) *Geom {
+	c = c.small()
+	part := func(ring bool) []Coord {
+		if r.Chance(0.1) {
+			return []Coord{}
+		}
+		c.ClosedRings = ring
+		return c.coords(r, l, ring)
+	}
+	switch t {
+	case MPt:
+		pts := make([][]Coord, k)
+		for i := range pts {
+			pts[i] = []Coord{c.coord(r, l)}
+		}
+		return &Geom{T: MPt, L: l, P: [][][]Coord{pts}}
+	case Pg, MLS:
+		ps := make([][]Coord, k)
+		for i := range ps {
+			ps[i] = part(t == Pg)
+		}
+		return &Geom{T: t, L: l, P: [][][]Coord{ps}}
+	}
+	pgs := make([][][]Coord, k)
+	for i := range pgs {
+		pgs[i] = [][]Coord{part(true)}
+	}
+	return &Geom{T: MPg, L: l, P: pgs}
+}
+
 // small is the configuration for the levels below the one a count class
 // applies to.
 func (c GenCfg) small() GenCfg {
@@ -316,9 +351,15 @@ func (c GenCfg) Big(r *prng.Rand, l int) *Geom {
 		// many small parts: part counts around 255/256 (a count kept in a byte)
 		// and 300; rings of a polygon, lines, or polygons of one ring
 		k := []int{254, 255, 256, 257, 300}[r.Intn(5)]
+		full := 0.9
+		if r.Chance(0.08) {
+			// a count kept in 16 bits, or a table grown in steps of 2^16
+			k = []int{65535, 65536, 65537, 65600}[r.Intn(4)]
+			full = 0.02
+		}
 		parts := make([][]Coord, k)
 		for i := range parts {
-			if r.Chance(0.9) {
+			if r.Chance(full) {
 				parts[i] = []Coord{cs[i%n], cs[(i+1)%n]}
 			} else {
 				parts[i] = []Coord{}
